@@ -10,5 +10,4 @@ MUTANTS = [
     {"name": "pfaffian-pivot-sign", "edits": [{"file": "src/pfaffian.cpp", "old": "            result *= -1;\n", "new": "            result *= 1;\n"}]},
     {"name": "pfaffian-tau-offset", "edits": [{"file": "src/pfaffian.cpp", "old": "                tau[i] = matrix_in[(k * n) + (k + 2 + i)] / element;", "new": "                tau[i] = matrix_in[(k * n) + (k + 1 + i)] / element;"}]},
     {"name": "hafnian-odd-total-nonzero", "edits": [{"file": "piquasso/_math/hafnian/plain_hafnian.py", "old": "    elif n % 2 != 0:\n        return 0.0\n\n    all_edges, edge_indices = match_occupation_numbers(occupation_numbers)\n\n    matrix_reduced", "new": "    elif n % 2 != 0 and n < 7:\n        return 0.0\n\n    all_edges, edge_indices = match_occupation_numbers(occupation_numbers)\n\n    matrix_reduced"}]},
-    {"name": "jax-perm-grad-factor", "edits": [{"file": "src/permanent.cpp", "old": "                static_cast<double>(rows[i]) * static_cast<double>(cols[j]) *", "new": "                static_cast<double>(rows[i]) *"}]},
 ]
